@@ -46,6 +46,9 @@ def spvec(u):
          requires=['sv_wf(*self)'],
          ensures=['match r { Ok(x) => (x as int) < self.elements@.len() && self.elements@[x as int] == i,'
                   ' Err(x) => (x as int) <= self.elements@.len() && (forall |k: int| 0 <= k < x as int ==> self.elements@[k] < i) && (forall |k: int| x as int <= k < self.elements@.len() ==> self.elements@[k] > i) }'])
+    u.fn('src/sparse_vec.rs', 'len', impl=IMPL, ret='r', ensures=['r == self.elements@.len()'])
+    u.fn('src/sparse_vec.rs', 'get_by_raw_index', impl=IMPL, ret='r', requires=['(i as int) < self.elements@.len()'],
+         ensures=['r.0 == self.elements@[i as int] as usize', 'r.1.value == 1'])
     u.fn('src/sparse_vec.rs', 'get', impl=IMPL, ret='r',
          requires=['sv_wf(*self)', 'i < 65536'],
          ensures=['r.is_some() == sv_has(*self, i as u16)', 'r.is_some() ==> r.unwrap().value == 1'])
